@@ -4,6 +4,11 @@
 // space) + one valid input path (planner output / hand-made zig-zag / degenerate) + every applicable routine of
 // PathSimplifier / PathGeometric / PathHybridization applied to a fresh copy with parameters drawn per case.
 // The before/after oracle is the one of DESIGN.md §4/C17 (dense re-validation of §4/C01).
+//
+// Debugging aids (never used by the registered commands): --kind k (space kind 0..4), --input i (input class), --routine r
+// (apply only routine r; 12 = hybridization; every application has its own random streams, so together with --only-case it
+// replays exactly), --trace 1 (print the parameters before every library call), --open-worlds 1 (states outside the bounds
+// count as valid; perturbPath then extrapolates into malformed SO(2) values, see the final report of this engine).
 #include "common.h"
 #include <ompl/base/spaces/RealVectorStateSpace.h>
 #include <ompl/base/spaces/SE2StateSpace.h>
